@@ -4,21 +4,26 @@
 #include "place_global/transportation_1d.hpp"
 #include "verif.hpp"
 
+struct CallResult { bool threw = false; std::string what; };
+template <class F> CallResult guarded(F &&f) { CallResult r; try { f(); } catch (const std::exception &e) { r.threw = true; r.what = e.what(); } catch (...) { r.threw = true; r.what = "non-std"; } return r; }
+
 struct Inst {
   std::vector<long long> u, v, s, d;
   int balance;  // 1: call balanceDemand() first (over-full instances)
   long long scale, shift;
+  long long qscale = 1;  // supplies and demands multiplied by this (areas are 64-bit)
 };
 
 static std::string enc(const Inst &in) {
   return vf::joinInts(in.u) + "|" + vf::joinInts(in.v) + "|" + vf::joinInts(in.s) + "|" + vf::joinInts(in.d) + "|" +
-         std::to_string(in.balance) + "|" + std::to_string(in.scale) + "|" + std::to_string(in.shift);
+         std::to_string(in.balance) + "|" + std::to_string(in.scale) + "|" + std::to_string(in.shift) + "|" + std::to_string(in.qscale);
 }
 static Inst dec(const std::string &str) {
   auto p = vf::splitStr(str, '|');
   Inst in;
   in.u = vf::splitInts(p[0]); in.v = vf::splitInts(p[1]); in.s = vf::splitInts(p[2]); in.d = vf::splitInts(p[3]);
   in.balance = atoi(p[4].c_str()); in.scale = atoll(p[5].c_str()); in.shift = atoll(p[6].c_str());
+  in.qscale = p.size() > 7 ? atoll(p[7].c_str()) : 1;
   return in;
 }
 
@@ -52,6 +57,11 @@ static vf::Verdicts eval(const Inst &in0, vf::Ctx &ctx) {
   for (auto &x : in.v) x = x * in.scale + in.shift;
   auto fail = [&](const std::string &cls, const std::string &msg) { out.push_back({cls, msg + " | " + enc(in0)}); };
   int n = in.u.size(), m = in.v.size();
+  // reference optimum on the unscaled quantities (the optimum is linear in a common quantity factor)
+  const long long Q = in.qscale;
+  std::vector<long long> s0 = in.s, d0 = in.d;
+  for (auto &x : in.s) x *= Q;
+  for (auto &x : in.d) x *= Q;
   Transportation1d pb(in.u, in.v, in.s, in.d);
   std::vector<long long> d = in.d;
   if (in.balance) {
@@ -85,8 +95,28 @@ static vf::Verdicts eval(const Inst &in0, vf::Ctx &ctx) {
   for (int i = 0; i < n && valid; ++i) if (sent[i] != in.s[i]) valid = false;
   for (int j = 0; j < m && valid; ++j) if (got[j] > d[j]) valid = false;
   if (!valid) { fail("plan-invalid", ""); return out; }
-  long long opt = refCost(in.u, in.v, in.s, d);
+  long long opt;
+  if (Q == 1) opt = refCost(in.u, in.v, in.s, d);
+  else {
+    // balanceDemand distributes the missing amount in units, which does not commute with the factor: only unbalanced-free instances are scaled
+    opt = refCost(in.u, in.v, s0, d0) * Q;
+  }
   if (cost != opt) fail("plan-not-optimal", "cost " + std::to_string(cost) + " optimum " + std::to_string(opt));
+  // history on the same object and thread: a user-supplied invalid plan is rejected by the public checker, then everything is asked again
+  {
+    Transportation1d::Solution bad = sol;
+    bad.emplace_back(0, 0, 1);  // one unit too many for source 0
+    CallResult rej = guarded([&] { pb.checkSolutionValid(bad); });
+    if (!rej.threw) fail("invalid-plan-accepted-by-checkSolutionValid", "");
+    Transportation1d::Solution bad2 = {{0, 0, -1}};
+    guarded([&] { pb.checkSolutionValid(bad2); });
+    Transportation1d::Solution again;
+    CallResult r2 = guarded([&] { again = pb.solve(); });
+    if (r2.threw) fail("solve-throws-after-a-rejected-plan", r2.what);
+    else if (again != sol) fail("solve-differs-after-a-rejected-plan", "");
+    CallResult r3 = guarded([&] { pb.checkSolutionValid(sol); });
+    if (r3.threw) fail("valid-plan-rejected-by-checkSolutionValid", r3.what);
+  }
   // rounded assignment
   Transportation1d pb2(in.u, in.v, in.s, in.d);
   if (in.balance) pb2.balanceDemand();
@@ -130,7 +160,7 @@ int main(int argc, char **argv) {
   c.rule =
       "all instances with 1..3 sources and 1..3 sinks (thorough: up to 4x3 / 3x4 on a reduced value set), positions in {0,1,3} (thorough {0,1,2,4}), unsorted with "
       "duplicates (plus 3x4 on {0,2,4,5} with quantities 1..2), supplies and demands in {0..3} (zeros included), total supply <= total demand, plus the over-full ones after balanceDemand(); "
-      "plus the same shapes scaled/shifted to positions ~1e8; oracle: plan validity by direct sums, cost equal to the non-crossing-matching DP optimum, "
+      "plus the same shapes scaled/shifted to positions ~1e8, and small shapes with quantities multiplied by 1e9 (totals beyond 2^31); after every solve a user-supplied invalid plan is rejected by checkSolutionValid and solve() is asked again on the same object; oracle: plan validity by direct sums, cost equal to the non-crossing-matching DP optimum, "
       "assign(): one in-range positive-demand sink per source and the unsplit-source rule; built with ASan/UBSan/libstdc++ assertions so any "
       "out-of-bounds access kills the worker; non-trivial = a source is split or a zero supply/demand is present";
   c.bounds = th ? "<=4x3, values {0..3}" : "<=3x3";
@@ -159,6 +189,31 @@ int main(int argc, char **argv) {
       }
     // three sources x four sinks on four positions with unequal gaps, supplies/demands 1..2 (a source straddling a sink boundary)
     gen(3, 4, {0, 2, 4, 5}, 2, 1, 0, true, 1);
+    // quantities (cell areas) beyond 2^31: the same small shapes with supplies and demands multiplied by 1e9 (totals of several 1e9)
+    {
+      auto genQ = [&](int n, int m, std::vector<long long> pos, long long q) {
+        gen(n, m, pos, 3, 1, 0, true, 0);
+        (void)q;
+      };
+      (void)genQ;
+      std::vector<long long> pos = {0, 1, 3};
+      for (int n = 1; n <= 2; ++n)
+        for (int m = 1; m <= 3; ++m) {
+          std::vector<int> radix;
+          for (int i = 0; i < n + m; ++i) radix.push_back(pos.size());
+          for (int i = 0; i < n + m; ++i) radix.push_back(4);
+          for (vf::Odometer od(radix); !od.done; od.next()) {
+            Inst in;
+            in.scale = 1; in.shift = 0; in.balance = 0; in.qscale = 1000000000LL;
+            long long ts = 0, td = 0;
+            for (int i = 0; i < n; ++i) in.u.push_back(pos[od.v[i]]);
+            for (int j = 0; j < m; ++j) in.v.push_back(pos[od.v[n + j]]);
+            for (int i = 0; i < n; ++i) { in.s.push_back(od.v[n + m + i]); ts += od.v[n + m + i]; }
+            for (int j = 0; j < m; ++j) { in.d.push_back(od.v[2 * n + m + j]); td += od.v[2 * n + m + j]; }
+            if (ts <= td) f(in);
+          }
+        }
+    }
     // scaled copies as produced by the rough legalizer's 1e8 factor
     gen(2, 2, {0, 1, 3}, 3, 33333333, 0, false);
     gen(3, 2, {0, 1, 3}, 2, 33333333, 5, false);
